@@ -89,7 +89,11 @@ func gen(t *rapid.T) Case {
 				if len(op.Name) > 200 {
 					op.Name = op.Name[:200]
 				}
-				op.Tags = pbt.MapOf(tagStr(), tagStr(), 3).Draw(t, "tags")
+				maxTags := 3
+				if rapid.IntRange(0, 7).Draw(t, "manytags?") == 0 {
+					maxTags = 16 // more than a pooled tag slice of the reporter holds
+				}
+				op.Tags = pbt.MapOf(tagStr(), tagStr(), maxTags).Draw(t, "tags")
 				if rapid.IntRange(0, 5).Draw(t, "bucketTag?") == 0 {
 					// a tag named like one of the reporter's bucket tags (default or custom names): ordinary
 					// user data on counters, gauges and timers, and on histograms it travels next to the
